@@ -1,9 +1,11 @@
 use crate::engine::Property;
 
+pub mod c05;
 pub mod c19;
 
 pub fn lookup(id: &str) -> Option<Property> {
     Some(match id {
+        "C05" => c05::property(),
         "C19" => c19::property(),
         _ => return None,
     })
